@@ -19,27 +19,27 @@ open LM
 
 /-- The list that stands for the `BTreeMap` is strictly sorted by key after *every* history (no hypothesis):
 keys are unique and `lastLE` is `range(..=a).next_back()`. -/
-theorem C11_sorted (ops : List Op) : (run ops).Pairwise (fun m n => m.s < n.s) :=
-  sorted_foldl ops [] List.Pairwise.nil
+theorem C11_sorted (ops : List Op) : (run ops).map.Pairwise (fun m n => m.s < n.s) :=
+  sorted_foldl ops Table.empty List.Pairwise.nil
 
 /-- With non-empty ranges no call can panic, in any state: `BTreeMap::range(removal_start..end)` is never called
 with `removal_start > end`. -/
-theorem C11_no_panic (mp : Map) (op : Op) (hok : OpOk op) : stepSafe mp op = true := by
+theorem C11_no_panic (t : Table) (op : Op) (hok : OpOk op) : stepSafe t op = true := by
   cases op with
-  | add x => exact addSafe_of_ok mp x hok
+  | add x => exact addSafe_of_ok t x hok
   | remove s => rfl
   | clear => rfl
 
 /-- The table holds exactly the live mappings of the history: `m` is stored iff it was added at some step and no
 later step is a `clear`, a `remove` of its start, or an `add` of an intersecting range. -/
 theorem C11_live (ops : List Op) (hok : ∀ op ∈ ops, OpOk op) (m : M) :
-    m ∈ run ops ↔ ∃ pre post, LiveAt ops pre post m := by
+    m ∈ (run ops).map ↔ ∃ pre post, LiveAt ops pre post m := by
   rw [(run_spec ops hok).2 m, mem_liveSpec_iff]
 
 /-- No two stored mappings overlap, and every stored range is non-empty. -/
 theorem C11_nonoverlap (ops : List Op) (hok : ∀ op ∈ ops, OpOk op) :
-    (∀ m ∈ run ops, m.s < m.e) ∧
-    ∀ m ∈ run ops, ∀ n ∈ run ops, m ≠ n → m.e ≤ n.s ∨ n.e ≤ m.s := by
+    (∀ m ∈ (run ops).map, m.s < m.e) ∧
+    ∀ m ∈ (run ops).map, ∀ n ∈ (run ops).map, m ≠ n → m.e ≤ n.s ∨ n.e ≤ m.s := by
   obtain ⟨hw, _⟩ := run_spec ops hok
   exact ⟨hw.2, fun m hm n hn hne => WF_disjoint hw hm hn hne⟩
 
@@ -63,16 +63,16 @@ theorem C11_live_disjoint (ops pre post pre' post' : List Op) (m n : M)
 /-- Refinement: the code's lookup (last key ≤ a, then end check) returns exactly the declaratively resolved
 mapping, for every history of non-empty ranges and every address. -/
 theorem C11_refines (ops : List Op) (hok : ∀ op ∈ ops, OpOk op) (a : Nat) :
-    lookupImpl (run ops) a = resolveSpec ops a :=
+    lookupImpl (run ops).map a = resolveSpec ops a :=
   lookup_run ops hok a
 
 /-- What the lookup returns is a live mapping covering `a`, and it is the most recently added one among all live
 mappings covering `a`; if it returns nothing, no live mapping covers `a`. -/
 theorem C11_newest (ops : List Op) (hok : ∀ op ∈ ops, OpOk op) (a : Nat) :
-    (∀ m, lookupImpl (run ops) a = some m →
+    (∀ m, lookupImpl (run ops).map a = some m →
       ∃ pre post, LiveAt ops pre post m ∧ m.s ≤ a ∧ a < m.e ∧
         ∀ pre' post' n, LiveAt ops pre' post' n → n.s ≤ a → a < n.e → pre'.length ≤ pre.length) ∧
-    (lookupImpl (run ops) a = none → ∀ pre post n, LiveAt ops pre post n → ¬ (n.s ≤ a ∧ a < n.e)) := by
+    (lookupImpl (run ops).map a = none → ∀ pre post n, LiveAt ops pre post n → ¬ (n.s ≤ a ∧ a < n.e)) := by
   rw [lookup_run ops hok a]
   constructor
   · intro m h
@@ -101,8 +101,8 @@ theorem C11_unique_cover (ops pre post pre' post' : List Op) (m n : M) (a : Nat)
 
 /-- `remove_mapping(start)` returns the live mapping that starts at `start` (and nothing if there is none). -/
 theorem C11_remove_returns (ops : List Op) (hok : ∀ op ∈ ops, OpOk op) (s : Nat) :
-    (∀ m, removeOut (run ops) s = some m → m.s = s ∧ ∃ pre post, LiveAt ops pre post m) ∧
-    (removeOut (run ops) s = none → ∀ pre post n, LiveAt ops pre post n → n.s ≠ s) := by
+    (∀ m, removeOut (run ops).map s = some m → m.s = s ∧ ∃ pre post, LiveAt ops pre post m) ∧
+    (removeOut (run ops).map s = none → ∀ pre post n, LiveAt ops pre post n → n.s ≠ s) := by
   constructor
   · intro m h
     have hmem := List.mem_of_find?_eq_some h
@@ -120,7 +120,7 @@ theorem C11_rel_no_underflow (mp : Map) (a : Nat) (m : M) (h : lookupImpl mp a =
 /-- Relative address: under the 32-bit guard, `convert_address` yields the resolved mapping's value and
 `relative_start + (address − start)`; unmapped addresses convert to nothing; there is no panic. -/
 theorem C11_rel (ops : List Op) (hok : ∀ op ∈ ops, OpOk op) (hfit : ∀ op ∈ ops, Fits32 op) (a : Nat) :
-    convertAddress (run ops) a =
+    convertAddress (run ops).map a =
       match resolveSpec ops a with
       | none => Conv.none
       | some m => Conv.ok (m.rel + (a - m.s)) m.v :=
@@ -152,7 +152,7 @@ theorem C11_rel_outside_guard (mp : Map) (a : Nat) (m : M) (hl : lookupImpl mp a
 first and only then through `p`'s own table (other processes' tables are never consulted); a `ReturnAddress` is
 looked up one byte earlier, `InstructionPointer` and `AdjustedReturnAddress` as they are. -/
 theorem C11_profile_order (ops : List POp) (hok : ∀ op ∈ ops, POpOk op) (p : Nat) (fa : FrameAddr) :
-    resolveFrame (prun ops).kernel ((prun ops).procs p) fa = frameSpec ops p fa := by
+    resolveFrame (prun ops).kernel.map ((prun ops).procs p).map fa = frameSpec ops p fa := by
   have hk := kernelOps_ok ops hok
   have hp := procOps_ok p ops hok
   have ck := convert_run (kernelOps ops) (fun o ho => (hk o ho).1) (fun o ho => (hk o ho).2)
@@ -197,10 +197,10 @@ def C11_testOps : List Op :=
    .add ⟨255, 270, 255, 5⟩, .add ⟨100, 150, 100, 6⟩]
 
 example : (∀ op ∈ C11_testOps, OpOk op) ∧ (∀ op ∈ C11_testOps, Fits32 op) := by decide
-example : (run C11_testOps).map (·.v) = [6, 3, 4, 5] := by decide
-example : lookup (run C11_testOps) 90 = none ∧ lookup (run C11_testOps) 150 = none
-    ∧ lookup (run C11_testOps) 149 = some 6 ∧ lookup (run C11_testOps) 200 = some 3
-    ∧ lookup (run C11_testOps) 260 = some 5 := by decide
+example : (run C11_testOps).map.map (·.v) = [6, 3, 4, 5] := by decide
+example : lookup (run C11_testOps).map 90 = none ∧ lookup (run C11_testOps).map 150 = none
+    ∧ lookup (run C11_testOps).map 149 = some 6 ∧ lookup (run C11_testOps).map 200 = some 3
+    ∧ lookup (run C11_testOps).map 260 = some 5 := by decide
 example : resolveSpec C11_testOps 200 = some ⟨180, 220, 180, 3⟩ ∧ resolveSpec C11_testOps 170 = none := by decide
 
 /-- nested (10..20 inside 0..100), swallowing several (5..60 over 10..20, 30..40, 50..55), touching at a boundary
@@ -211,20 +211,23 @@ def C11_shapes : List Op :=
    .add ⟨4294967000, 4294967296, 0, 9⟩]
 
 example : (∀ op ∈ C11_shapes, OpOk op) ∧ (∀ op ∈ C11_shapes, Fits32 op) := by decide
-example : run (C11_shapes.take 5) = [⟨5, 60, 1000, 5⟩] := by decide
-example : run (C11_shapes.take 7) = [⟨5, 60, 1000, 5⟩, ⟨60, 70, 16, 7⟩] := by decide
-example : convertAddress (run (C11_shapes.take 7)) 59 = .ok 1054 5
-    ∧ convertAddress (run (C11_shapes.take 7)) 60 = .ok 16 7
-    ∧ convertAddress (run (C11_shapes.take 7)) 70 = .none := by decide
-example : run (C11_shapes.take 10) = [⟨5, 60, 2000, 8⟩, ⟨60, 70, 16, 7⟩] := by decide
-example : convertAddress (run C11_shapes) 4294967295 = .ok 295 9 := by decide
+example : (run (C11_shapes.take 5)).map = [⟨5, 60, 1000, 5⟩] := by decide
+example : (run (C11_shapes.take 7)).map = [⟨5, 60, 1000, 5⟩, ⟨60, 70, 16, 7⟩] := by decide
+example : convertAddress (run (C11_shapes.take 7)).map 59 = .ok 1054 5
+    ∧ convertAddress (run (C11_shapes.take 7)).map 60 = .ok 16 7
+    ∧ convertAddress (run (C11_shapes.take 7)).map 70 = .none := by decide
+example : (run (C11_shapes.take 10)).map = [⟨5, 60, 2000, 8⟩, ⟨60, 70, 16, 7⟩] := by decide
+example : convertAddress (run C11_shapes).map 4294967295 = .ok 295 9 := by decide
 
 /-- the guard matters: a mapping whose relative addresses leave 32 bits makes the real code panic (or wrap) -/
-example : convertAddress (run [.add ⟨0, 100, 4294967290, 1⟩]) 5 = .ok 4294967295 1
-    ∧ convertAddress (run [.add ⟨0, 100, 4294967290, 1⟩]) 6 = .panic := by decide
+example : convertAddress (run [.add ⟨0, 100, 4294967290, 1⟩]).map 5 = .ok 4294967295 1
+    ∧ convertAddress (run [.add ⟨0, 100, 4294967290, 1⟩]).map 6 = .panic := by decide
 
-/-- an empty / inverted range is outside the statement: the real `BTreeMap::range` call panics -/
-example : stepSafe (run [.add ⟨0, 10, 0, 1⟩]) (.add ⟨20, 15, 0, 2⟩) = false := by decide
+/-- an inverted range is outside the statement: the real `BTreeMap::range` call panics (once the map owns a root
+node; std skips the bounds check on a never-filled / cleared map) -/
+example : stepSafe (run [.add ⟨0, 10, 0, 1⟩]) (.add ⟨20, 15, 0, 2⟩) = false
+    ∧ stepSafe (run [.add ⟨0, 10, 0, 1⟩, .remove 0]) (.add ⟨20, 15, 0, 2⟩) = false
+    ∧ stepSafe (run [.add ⟨0, 10, 0, 1⟩, .clear]) (.add ⟨20, 15, 0, 2⟩) = true := by decide
 
 /-- profile level: kernel mapping shadows a process mapping at the same address; return address one byte earlier;
 process 1 never sees process 0's mapping -/
